@@ -150,6 +150,23 @@ theorem doc_rule_refuses_older (cfg : Cfg) (r : Route) (req : Req) (h : Register
   · cases this
   · simp [hold] at this
 
+/-- byte level: a presented token is accepted iff its signature part is EXACTLY the MAC of its payload
+part under the node's key and it has not expired — nothing an attacker can assemble from observed
+tokens (re-dated payloads, spliced or swapped signatures) passes unless it is such a MAC -/
+theorem raw_accept_iff (mac : List Nat → List Nat → List Nat) (key : List Nat) (expired : Bool) (t : RawToken) :
+    rawVerify mac key expired t = none ↔ t.sig = mac key t.payload ∧ expired = false := by
+  unfold rawVerify
+  by_cases h : t.sig = mac key t.payload <;> cases expired <;> simp [h]
+
+/-- the token the node issues (specification) is accepted until it expires, and only with its own payload -/
+theorem issued_token_verifies (mac : List Nat → List Nat → List Nat) (key payload : List Nat) :
+    rawVerify mac key false (issueSpec mac key payload) = none := by
+  simp [rawVerify, issueSpec]
+
+theorem forged_signature_refused (mac : List Nat → List Nat → List Nat) (key : List Nat) (e : Bool) (t : RawToken)
+    (h : t.sig ≠ mac key t.payload) : rawVerify mac key e t = some .csrfSig := by
+  simp [rawVerify, h]
+
 /-! ### non-vacuity: concrete requests on the regenerated table -/
 
 def exCfg : Cfg := { host := "127.0.0.1:6420", isLocalhost := true, port := 6420, whitelist := ["wl.example.com"], disableCSRF := false, disableHeaderCheck := false, enabled := [.WALLET], username := "a", password := "bc", corsPassthrough := corsOptionsPassthrough }
@@ -173,6 +190,9 @@ example : Sky.C27.decide verifyCode exCfg exRoute { exReq with tok := { exTok wi
 example : Sky.C27.decide verifyDoc exCfg exRoute { exReq with tok := { exTok with latest := false } } = .refuse .csrfSuperseded := by decide
 -- F10a in one line: comparing the CONCATENATION accepts a differently split pair
 example : ("ab", "c") ≠ ("a", "bc") ∧ "ab" ++ "c" = "a" ++ "bc" := by decide
+-- byte level, with a toy MAC: the splice "own payload ‖ tail of an observed signature" is refused
+example : rawVerify (fun k m => k ++ m) [1] false ⟨[5, 6], [5, 6] ++ [1, 9]⟩ = some .csrfSig := by decide
+example : rawVerify (fun k m => k ++ m) [1] false (issueSpec (fun k m => k ++ m) [1] [5, 6]) = none := by decide
 -- hypotheses of the token theorem are satisfiable
 example : verifyToken (fun p => p.nonce + 7) ⟨[⟨3, 100⟩]⟩ 50 ⟨⟨3, 100⟩, 10⟩ = true := by decide
 
